@@ -99,3 +99,10 @@ add("C15", "exploration",
     "Directive lines are comment lines of the main file; case-sensitive keyword.",
     "property-based testing (Hypothesis) against a reference parser + result equivalence",
     "DESIGN.md section 15")
+add("C12", "exploration",
+    "Generated @constexpr functions, argument expressions and call positions; the function text is executed directly by "
+    "the checker and every call site's written value on the reference machine must equal it; metamorphic literal twin "
+    "for 'emits no code'; forbidden-word bodies must be rejected.",
+    "Child interpreter has a 1 s limit (spurious timeouts retried, else inconclusive); results are numbers/booleans.",
+    "property-based testing (Hypothesis): direct Python evaluation as reference model + metamorphic literal twin",
+    "DESIGN.md section 12")
